@@ -201,6 +201,7 @@ class History:
             self.algs[i] = make_alg(self.pool[i], f"a{i}")
             self.hist[-1] = f"add(new {self.pool[i]} under the same name)"
             ctx.state("another algorithm object added under an existing name")
+        rp_before = probes.digest(self.algs[i].run_params) if op == "mpe" and getattr(self.algs[i], "run_params", None) is not None else None
         try:
             if op in ("add", "replace"):
                 self.setup.add_algorithms(self.algs[i])
@@ -251,6 +252,9 @@ class History:
                     break
                 st[j].update(ran=True, mpe=False)
                 self.any_run = True
+        if expect_exc and exc is not None and rp_before is not None and st[i]["added"] and probes.digest(self.algs[i].run_params) != rp_before:
+            # "an exception is raised and nothing is stored": neither a result nor the arguments of the extraction that did not take place
+            self.fail("gating:rejected_extraction_stored_its_arguments", f"mpe was rejected ({type(exc).__name__}) but run_params changed: {self.algs[i].run_params}")
         if expect_exc and exc is None:
             self.fail(f"gating:{op}_accepted", f"{op} should have raised (algorithm state {st[i] if i >= 0 else st})")
         if not expect_exc and exc is not None:
